@@ -47,7 +47,10 @@ DomOK(e, a) ==
 
 OutMatches(e, exp, got) ==
   LET op == e.op IN
-  CASE op = "table" -> got.aa = exp.aa /\ ToSet(got.starts) = exp.starts
+  CASE op = "table" -> /\ got.aa = exp.aa /\ ToSet(got.starts) = exp.starts
+                       /\ got.derived = exp.derived /\ ToSet(got.derivedStarts) = exp.derivedStarts
+                       /\ got.aaAfter = exp.aaAfter /\ ToSet(got.startsAfter) = exp.startsAfter
+    [] op = "big_seq" -> got = exp
     [] op \in {"str", "len", "eq", "copy", "isvalid", "encode", "decode", "encode_multiple",
                "decode_multiple", "extends", "map", "translate", "fuse", "split", "kmers",
                "kencode", "kdecode"} -> got = exp
